@@ -132,7 +132,7 @@ CLAIMS = {
          "interpreted against set algebra; units and cache key pairing of the zbdd rules crate; E-TABLE.step: the recursive step of "
          "union/intsec/diff/symm_diff, subset0/subset1/change and apply_ite interpreted under zero-suppressed semantics in every "
          "level configuration, incl. restrict of the Boolean-function view (cubes with positive / negative / don't-care levels); "
-         "skipped-level cofactors are zero-suppressed; restrict_base creates one don't-care node per skipped level (a loop over the level range). E-EVAL: eval_edge interpreted for one iteration of its argument loop (the value given last counts, injective encodings, no other entry touched) and one call of its walk (child for the stored value; complement flag / counter / terminals), plus the initial call. make_node and consistency after add_vars beyond the cache events are not decided.",
+         "skipped-level cofactors are zero-suppressed; E-TAUT: the tautology chain lookup and its rebuild (Base first, bottom-up, one don't-care node per level); make_node reduces at the singleton's level with (hi, lo) in order; restrict_base creates one don't-care node per skipped level (a loop over the level range). E-EVAL: eval_edge interpreted for one iteration of its argument loop (the value given last counts, injective encodings, no other entry touched) and one call of its walk (child for the stored value; complement flag / counter / terminals), plus the initial call. make_node and consistency after add_vars beyond the cache events are not decided.",
          "abstract interpretation of HIR wrappers", "3.4, 4 C09"),
  "C10": ("E-TABLE + E-WRAP: mtbdd::terminal_bin enumerated over {NaN,0,1,c1,c2,x,y}^2 for 6 operators and all comparison "
          "outcomes, result term compared with the pointwise operator on a grid of extended reals with NaN (neutral/absorbing "
